@@ -182,7 +182,7 @@ class Problem:
         if self.pre_false:
             return False
         to = self.timeout * budget_scale()
-        for budget, seed in ([(to, 7)] if to <= 20 else [(max(5.0, 0.1 * to), 7), (max(10.0, 0.3 * to), 101), (to, 2024)]):
+        for budget, seed in ([(to, 7)] if to <= 20 else [(max(5.0, 0.05 * to), 7), (max(8.0, 0.1 * to), 101), (max(10.0, 0.2 * to), 2024), (max(10.0, 0.4 * to), 77), (to, 5)]):
             s = self.solver(budget, seed)
             r = s.check()
             if r != z3.unknown:
@@ -207,9 +207,9 @@ class Problem:
             return {"name": nm, "verdict": UNSAT, "backend": "normaliser", "time": 0.0, "note": "precondition is False"}
         to = (timeout_s or self.timeout) * budget_scale()
         # z3's running time on one and the same obligation varies by orders of magnitude with the random seed and with the numbering of the
-        # terms (measured: 0.9 s in one process, > 300 s in another).  Restarts with fresh seeds and growing budgets (10%, 30%, 100% of the
+        # terms (measured: 0.9 s in one process, > 300 s in another).  Restarts with fresh seeds and growing budgets (5%, 10%, 20%, 40%, 100% of the
         # budget) make the verdict robust against that: an answer of any attempt is an answer, only the last timeout is a timeout.
-        attempts = [(to, 7)] if to <= 20 else [(max(5.0, 0.1 * to), 7), (max(10.0, 0.3 * to), 101), (to, 2024)]
+        attempts = [(to, 7)] if to <= 20 else [(max(5.0, 0.05 * to), 7), (max(8.0, 0.1 * to), 101), (max(10.0, 0.2 * to), 2024), (max(10.0, 0.4 * to), 77), (to, 5)]
         for k, (budget, seed) in enumerate(attempts):
             s = self.solver(budget, seed)
             s.add(z3.Not(term))
